@@ -10,7 +10,12 @@ use serde_json::json;
 const DEFAULT_ID: &str = "1234567812345678";
 
 fn id_for(p: &mut Prng, sel: u64) -> (Option<&'static str>, String) {
-    match sel % 8 {
+    match sel % 9 {
+        8 => {
+            let n = p.range(1, 24);
+            let s = utf8_id(p, n);
+            (Some(leak(s.clone())), s)
+        }
         0 | 1 | 2 => (None, DEFAULT_ID.to_string()),
         3 => (Some(""), String::new()),
         4 => {
@@ -37,7 +42,7 @@ pub fn run(ctx: &mut Ctx) {
     for (n, ok) in r2::selftest() {
         ctx.selftest(&n, ok);
     }
-    ctx.require(&["annex_kat", "fixed_nonce_exact", "free_nonce", "ref_made_accepted", "openssl_made_accepted", "id_default", "id_explicit", "id_empty", "id_8191", "id_too_long", "msg_empty", "edge_key", "random_key", "e_ge_n"]);
+    ctx.require(&["annex_kat", "fixed_nonce_exact", "free_nonce", "ref_made_accepted", "openssl_made_accepted", "id_default", "id_explicit", "id_empty", "id_8191", "id_too_long", "id_non_ascii_utf8", "msg_empty", "edge_key", "random_key", "e_ge_n"]);
     let c = r2::curve();
 
     // --- Annex example through the library with the nonce injected
@@ -86,6 +91,9 @@ pub fn run(ctx: &mut Ctx) {
             Some("") => "id_empty",
             Some(_) => "id_explicit",
         });
+        if !id_str.is_ascii() {
+            ctx.class("id_non_ascii_utf8");
+        }
         let mlen = match i % 5 {
             0 => (i / 5 % 4097) as usize,
             1 => 0,
